@@ -154,7 +154,7 @@ def end_to_end(rng, stats, out, n):
     for _ in range(n):
         sch = rng.choice([b"s:http|", b"s:https|"])
         port = rng.choice(PORTS)
-        hosts = [b"h:com|", rng.choice([b"h:a|", b"h:b|"])] + ([b"h:c|"] if rng.random() < 0.3 else [])
+        hosts = [b"h:com|", rng.choice([b"h:a|", b"h:b|", b"h:Example|"])] + ([rng.choice([b"h:c|", b"h:WWW|", b"h:Www|"])] if rng.random() < 0.35 else [])
         if rng.random() < 0.12:
             # deep hosts (many labels), as the subdomain rule sees them
             hosts += [rng.choice([b"h:d|", b"h:e|", b"h:f|"]) for _ in range(rng.choice([3, 4, 5, 6, 7, 9, 12]))]
@@ -255,7 +255,7 @@ def run_shard(prop, spec, tier, seed, shard, nshards, scratch):
     for _ in range(tp["random"] // nshards):
         sch = rng.choice(SCHEMES)
         port = rng.choice(PORTS + [b"t:8080|"])
-        hs = [rng.choice(HOSTS + [b"h:b|", b"h:localhost|"]) for _ in range(rng.choice([0, 1, 2, 2, 3, 3, 4, 4, 5, 6, 7, 8, 9, 12, 20]))]
+        hs = [rng.choice(HOSTS + [b"h:b|", b"h:localhost|", b"h:WWW|", b"h:Www|", b"h:Com|", b"h:wwww|", b"h:ww|"]) for _ in range(rng.choice([0, 1, 2, 2, 3, 3, 4, 4, 5, 6, 7, 8, 9, 12, 20]))]
         while len(hs) >= 2 and hs[-1] == b"h:www|" and hs[-2] == b"h:www|":
             hs.pop()
         ps = []
